@@ -6190,16 +6190,38 @@ const Token* ValueFlow::solveExprValue(const Token* expr,
             return ValueFlow::solveExprValue(binaryTok, eval, value);
         }
         case '-': {
-            if (rhs)
+            if (rhs) {
+                // intval - x: a lower bound of the expression is an upper bound of x and vice versa
                 value.intvalue = intval - value.intvalue;
-            else
+                value.invertBound();
+            } else
                 value.intvalue += intval;
             return ValueFlow::solveExprValue(binaryTok, eval, value);
         }
         case '*': {
             if (intval == 0)
                 break;
-            value.intvalue /= intval;
+            const MathLib::bigint q = value.intvalue / intval;
+            const bool exact = (value.intvalue % intval) == 0;
+            if (value.bound == ValueFlow::Value::Bound::Point) {
+                // x * intval == value has a solution only when the division is exact
+                if (!exact)
+                    break;
+                value.intvalue = q;
+            } else {
+                // x * intval <= value (Upper) / >= value (Lower): round towards the inside of the range,
+                // and a negative factor turns the bound around
+                const bool upper = (value.bound == ValueFlow::Value::Bound::Upper) != (intval < 0);
+                const bool negativeQuotient = (value.intvalue < 0) != (intval < 0);
+                if (exact)
+                    value.intvalue = q;
+                else if (upper)
+                    value.intvalue = negativeQuotient ? q - 1 : q; // floor
+                else
+                    value.intvalue = negativeQuotient ? q : q + 1; // ceil
+                if (intval < 0)
+                    value.invertBound();
+            }
             return ValueFlow::solveExprValue(binaryTok, eval, value);
         }
         case '^': {
